@@ -150,7 +150,7 @@ def run(ctx):
                 parser = rng.choice(["absolute", "relative", "timestamp", "custom"])
                 rata = rng.choice(RATAS)
                 has_to = rng.random() < 0.8
-                y = rng.randint(2002, 2037) if parser == "timestamp" else rng.randint(1950, 2037)
+                y = rng.randint(2002, 2030)      # pytz (oracle) and the process-local zoneinfo agree on these years
                 w = datetime.datetime(y, rng.randint(1, 12), rng.randint(1, 28), rng.randint(0, 23), rng.randint(0, 59), rng.randint(0, 59))
                 offA = local_ok(Lz, w)
                 if offA is None:
